@@ -26,4 +26,5 @@ func Run(r *ev.Run) {
 	}
 	pivreg.RunBasic(r, b, deadline(r))
 	runTwoSessions(r)
+	runQueueEdits(r)
 }
